@@ -43,6 +43,8 @@ MonInit(S) ==
     nodefault |-> FALSE,                   \* some batch did not run to its end (failed sbatch, node killed/timed out/cancelled)
     epoch     |-> 0,
     kind      |-> [p \in {} |-> ""],       \* pid -> command label
+    pbatch    |-> [p \in {} |-> 0],        \* pid -> batch number of node processes
+    killedB   |-> {},                      \* batches whose node was killed / timed out / cancelled
     alive     |-> {},                      \* pids running
     placed    |-> [j \in JobsOf(S) |-> {}],
     usedIdx   |-> {},
@@ -69,7 +71,8 @@ MonInit(S) ==
     lastSummary |-> [res |-> <<>>, missing |-> <<>>, tally |-> <<0,0,0,0>>],
     rounds    |-> [p \in {} |-> [quiet |-> FALSE, nsb |-> 0, promoted |-> FALSE]],
     holder    |-> 0,                       \* pid that acquired the submitter role (0 = nobody)
-    hooks     |-> <<>>,                    \* hook events seen: <<which, b, pos>>
+    hooks     |-> <<>>,                    \* hook events seen: <<which, b, epoch>>
+    anyHandOver |-> FALSE,                 \* a batch was handed to the HPC / a job was started
     marker    |-> FALSE,                   \* submitter.lock exists (marker events)
     sqfail    |-> {},                      \* pids whose scheduler query failed
     atPromo   |-> [p \in {} |-> <<>>],     \* pid -> job-status part of the status right after its promotion
@@ -85,6 +88,7 @@ Check(m, c, ante, ok) ==
        IF ok THEN m1
        ELSE [m1 EXCEPT !.viol = @ \cup {c}, !.vpos = IF c \in DOMAIN @ THEN @ ELSE @ @@ (c :> m.pos)]
 
+HookCount(m, which, b) == Cardinality({k \in 1..Len(m.hooks) : m.hooks[k][1] = which /\ m.hooks[k][2] = b /\ m.hooks[k][3] = m.epoch})
 FaultFree(m) == ~m.faulty /\ ~m.nodefault
 Grp(S, j) == S.groups[S.grp[j]]
 AnyDry(S) == \E g \in DOMAIN S.groups : S.groups[g].dry
@@ -126,7 +130,7 @@ BatchChecks(S, m, e) ==
 -----------------------------------------------------------------------------
 OnProc(S, m, e) ==
   LET quiet == m.hasSt /\ m.active = 0 /\ m.st.sub = "" /\ ~m.st.complete
-      m1 == [m EXCEPT !.kind = (e.pid :> e.k) @@ @, !.alive = @ \cup {e.pid}]
+      m1 == [m EXCEPT !.kind = (e.pid :> e.k) @@ @, !.alive = @ \cup {e.pid}, !.pbatch = (e.pid :> e.b) @@ @]
   IN IF e.k = "try-submit-jobs"
        THEN [m1 EXCEPT !.rounds = (e.pid :> [quiet |-> quiet, nsb |-> m.okSbatch, promoted |-> FALSE]) @@ @]
        ELSE m1
@@ -142,7 +146,12 @@ OnExit(S, m, e) ==
       \* C11: a round whose scheduler query failed leaves no trace: role given back, no marker, job status as it found it
       m3 == Check(m2, "SqueueFailureHarmless", p \in m.sqfail /\ p \in DOMAIN m.atPromo /\ ~m.otherFaults,
                   m.st.sub = "" /\ ~m.marker /\ JsPart(m.st) = m.atPromo[p])
-  IN m3
+      m4 == Check(m3, "NodeTeardownOncePerBatch",
+                  e.k = "run-jobs" /\ S.hooks.nteardown /\ p \in DOMAIN m.pbatch /\ ~m.faulty /\ m.pbatch[p] \notin m.killedB,
+                  e.exc = "" /\ HookCount(m, "nteardown", m.pbatch[p]) = 1)
+      m5 == Check(m4, "RunnerEndsClean", e.k = "run-jobs" /\ p \in DOMAIN m.pbatch /\ ~m.faulty /\ m.pbatch[p] \notin m.killedB
+                      /\ (S.hooks.nsetup \/ S.hooks.nteardown), e.exc = "")
+  IN m5
 
 OnCfgBatch(S, m, e) ==
   LET b == e.b
@@ -169,7 +178,9 @@ OnSbatch(S, m, e) ==
       m6 == Check(m5, "GroupOptions", hasg, e.opts = g.opts /\ e.run = g.run)
       m7 == Check(m6, "DryRunNoSbatch", hasg, ~g.dry)
       m8 == BatchChecks(S, m7, e)
-  IN [m8 EXCEPT !.okSbatch = IF e.ok THEN @ + 1 ELSE @,
+      m9 == Check(m8, "SetupBeforeJobs", S.hooks.setup /\ m.epoch = 0, HookCount(m, "setup", -1) = 1)
+  IN [m9 EXCEPT !.okSbatch = IF e.ok THEN @ + 1 ELSE @,
+                !.anyHandOver = TRUE,
                 !.active = e.active,
                 !.bstate = IF e.ok THEN (b :> "pending") @@ @ ELSE @,
                 !.placed = [j \in JobsOf(S) |-> IF j \in ToSet(e.jobs) THEN @[j] \cup {b} ELSE @[j]]]
@@ -179,6 +190,7 @@ OnHpc(S, m, e) ==
       bad == e.what \in {"kill", "timeout", "cancel"}
   IN [m1 EXCEPT !.active = e.active,
                 !.nodefault = @ \/ bad,
+                !.killedB = IF bad THEN @ \cup {e.b} ELSE @,
                 !.bstate = (e.b :> (CASE e.what = "start" -> "running" [] e.what = "end" -> "ended" [] OTHER -> "killed")) @@ @]
 
 OnLaunch(S, m, e) ==
@@ -195,7 +207,9 @@ OnLaunch(S, m, e) ==
       m6 == Check(m5, "DryRunNoLaunch", known, ~g.dry)
       m7 == Check(m6, "LaunchInOwnBatch", known /\ e.b >= 0, e.b \in DOMAIN m.bjobs /\ j \in ToSet(m.bjobs[e.b]))
       m8 == Check(m7, "RerunExactly", known /\ m.epoch > 0, j \in m.rerun)
-  IN IF known THEN [m8 EXCEPT !.launches[j] = @ + 1] ELSE m8
+      m9 == Check(m8, "NodeSetupBeforeJobs", S.hooks.nsetup, HookCount(m, "nsetup", e.b) = 1)
+      mA == Check(m9, "SetupBeforeJobs", S.hooks.setup /\ m.epoch = 0, HookCount(m, "setup", -1) = 1)
+  IN IF known THEN [mA EXCEPT !.launches[j] = @ + 1, !.anyHandOver = TRUE] ELSE mA
 
 OnJobExit(S, m, e) == [m EXCEPT !.exited = (e.job :> e.rc) @@ @]
 
@@ -277,7 +291,8 @@ OnStatus(S, m, e) ==
                    J \subseteq rows)
       a17 == Check(a16, "SummaryBeforeFlag", becameComplete, m.summaries >= 1)
       a18 == Check(a17, "CompleteOnce", becameComplete, m.completions = 0)
-      a19 == Check(a18, "NoIdleLeftover",
+      a18b == Check(a18, "TeardownBeforeCompleteFlag", becameComplete /\ S.hooks.teardown, HookCount(m, "teardown", -1) = 1)
+      a19 == Check(a18b, "NoIdleLeftover",
                    sameJobs /\ e.marker /\ has /\ ~m.faulty /\ ~m.nodefault /\ ~e.canceled /\ ~AnyDry(S)
                      /\ JsPart(e) # JsPart(prev) /\ leftover # {},
                    S.maxnodes > 0 /\ Len(e.ids) >= S.maxnodes)
@@ -346,6 +361,22 @@ OnCop(S, m, e) ==
   IN [m4 EXCEPT !.holder = IF e.ok THEN e.pid
                            ELSE IF e.op = "demote" /\ e.exc = "" /\ @ = e.pid THEN 0 ELSE @]
 
+\* C16: lifecycle commands
+OnHook(S, m, e) ==
+  LET w == e.which
+      rows == ToSet(e.rows)
+      bj == IF e.b \in DOMAIN m.bjobs THEN ToSet(m.bjobs[e.b]) ELSE JobsOf(S)     \* local mode: the one "batch" is everything
+      a1 == Check(m,  "HookConfigured", TRUE, S.hooks[w])
+      a2 == Check(a1, "HookEnv", TRUE, e.envok /\ (w \in {"nsetup", "nteardown"} => e.grp \in DOMAIN S.groups))
+      a3 == Check(a2, "SetupOnceBeforeFirstHandOver", w = "setup", HookCount(m, "setup", e.b) = 0 /\ ~m.anyHandOver /\ m.epoch = 0)
+      a4 == Check(a3, "TeardownOncePerCompletion", w = "teardown",
+                  HookCount(m, "teardown", e.b) = 0 /\ ~(m.hasSt /\ m.st.complete) /\ m.summaries >= 1)
+      a5 == Check(a4, "TeardownAfterAllOutcomes", w = "teardown" /\ FaultFree(m) /\ ~m.cancelSeen /\ Acyclic(S), JobsOf(S) \subseteq rows)
+      a6 == Check(a5, "NodeSetupOncePerBatch", w = "nsetup", HookCount(m, "nsetup", e.b) = 0)
+      a7 == Check(a6, "NodeTeardownAfterJobs", w = "nteardown",
+                  HookCount(m, "nteardown", e.b) = 0 /\ e.live = 0 /\ (FaultFree(m) => bj \subseteq rows))
+  IN [a7 EXCEPT !.hooks = Append(@, <<w, e.b, m.epoch>>)]
+
 OnFault(S, m, e) == [m EXCEPT !.faulty = TRUE, !.otherFaults = TRUE]
 OnNodeKill(S, m, e) == [m EXCEPT !.nodefault = TRUE]
 OnMarker(S, m, e) == [m EXCEPT !.marker = e.on]
@@ -357,8 +388,15 @@ OnEnd(S, m, e) ==
       m1 == Check(m, "CompletesAfterRecovery",
                   e.full /\ S.mode = "hpc" /\ (~m.faulty \/ ~m.otherFaults) /\ ~AnyDry(S) /\ m.hasSt, m.st.complete)
       m2 == Check(m1, "ActiveBatchesCancelled", m.cancelSeen /\ m.cleanAtCancel, m.activeAtCancel \subseteq m.scancelled)
+      \* local mode: the one process runs everything; with or without lifecycle commands the results get recorded
+      m2a == Check(m2, "LocalRunRecordsResults", e.full /\ S.mode = "local" /\ ~m.faulty, m.summaries >= 1)
+      m2b == Check(m2a, "LocalHooksOnce", e.full /\ S.mode = "local" /\ ~m.faulty,
+                   /\ (S.hooks.nsetup => HookCount(m, "nsetup", -1) = 1)
+                   /\ (S.hooks.nteardown => HookCount(m, "nteardown", -1) = 1)
+                   /\ (S.hooks.setup => HookCount(m, "setup", -1) = 1)
+                   /\ (S.hooks.teardown => HookCount(m, "teardown", -1) = 1))
       \* C07: the dry run of a scenario writes the same first-round batches as the real run of the same scenario
-      m3 == Check(m2, "DryRunSame", S.hasfirst, m.cfgseq = S.firstround)
+      m3 == Check(m2b, "DryRunSame", S.hasfirst, m.cfgseq = S.firstround)
   IN [m3 EXCEPT !.ended = TRUE]
 
 MonStep(S, m0, e) ==
@@ -380,6 +418,7 @@ MonStep(S, m0, e) ==
     [] e.e = "squeue"    -> OnSqueue(S, m, e)
     [] e.e = "scancel"   -> OnScancel(S, m, e)
     [] e.e = "cop"       -> OnCop(S, m, e)
+    [] e.e = "hook"      -> OnHook(S, m, e)
     [] e.e = "nodekill"  -> OnNodeKill(S, m, e)
     [] e.e = "marker"    -> OnMarker(S, m, e)
     [] e.e \in {"kill", "fault"} -> OnFault(S, m, e)     \* injected faults only; a lock timeout or a broken marker is
@@ -395,7 +434,7 @@ MonSteps(S, m, es) == IF es = <<>> THEN m ELSE MonSteps(S, MonStep(S, m, Head(es
 ClausesOf(c) ==
   CASE c = "C01" -> {"OnePlacement", "FreshBatchIndex", "OneLaunch", "FinalPlacement", "SbatchMatchesConfig", "LaunchInOwnBatch", "LaunchKnownJob"}
     [] c = "C02" -> {"StartAfterBlockers"}
-    [] c = "C03" -> {"FinalResultsComplete", "FinalResultsMatchReference", "OneEntryPerJob"}
+    [] c = "C03" -> {"FinalResultsComplete", "FinalResultsMatchReference", "OneEntryPerJob", "LocalRunRecordsResults"}
     [] c = "C04" -> {"CanceledShape", "CanceledNeverRuns", "CanceledOnlyIf", "CanceledIff", "RanExactlyOnceUnlessCanceled"}
     [] c = "C05" -> {"QuiescentRoundProgress", "NoIdleLeftover", "CompleteHasAllResults", "SummaryBeforeFlag", "CompleteOnce",
                      "NoSbatchAfterComplete", "CompletesAfterRecovery"}
@@ -412,7 +451,12 @@ ClausesOf(c) ==
                      "CanceledNeverRuns"}
     [] c = "C12" -> {"MissingExact", "NoFabricatedResult", "FinishedKeepResults", "ResultKnownJob", "ResultStatusKnown", "OneResultPerJob",
                      "StartAfterBlockers", "CompletesAfterRecovery", "OneLaunch", "CanceledNeverRuns"}
-    [] c = "C14" -> {"NoSbatchAfterCancel", "ActiveBatchesCancelled"}
+    [] c = "C14" -> {"NoSbatchAfterCancel", "ActiveBatchesCancelled", "MissingExact", "FinishedKeepResults", "RowsNeverLost",
+                     "NoFabricatedResult"}
+    [] c = "C16" -> {"HookConfigured", "HookEnv", "SetupOnceBeforeFirstHandOver", "SetupBeforeJobs", "TeardownOncePerCompletion",
+                     "TeardownAfterAllOutcomes", "TeardownBeforeCompleteFlag", "NodeSetupOncePerBatch", "NodeSetupBeforeJobs",
+                     "NodeTeardownAfterJobs", "NodeTeardownOncePerBatch", "RunnerEndsClean", "FinalResultsComplete",
+                     "CompletesAfterRecovery", "LocalRunRecordsResults", "LocalHooksOnce"}
     [] c = "C20" -> {"TallyPartition"}
     [] OTHER -> {}
 
